@@ -96,7 +96,10 @@ def step (line : String) : String :=
       let tmp := tmpName b Generated.C14.tmpSuffixBytes (sfx c)
       let final := entryName b (sfx c)
       let recog := shouldClean Generated.C14.nameShapes (sfx c) c (!c) tmp
-      let marked := (markKeys final).contains tmp
+      -- what Store marks before it does anything (regenerated list of marked roles)
+      let protectedNames := (if Generated.C14.storeMarks.contains "final" then markKeys final else []) ++
+        (if Generated.C14.storeMarks.contains "tmp" then markKeys tmp else [])
+      let marked := protectedNames.contains tmp
       let evicted := tmpExists && recog && !marked
       "tmp-evicted=" ++ toString evicted ++ " hit=" ++ toString (!evicted)
     | _, _ => "bad-op"
